@@ -321,7 +321,7 @@ _RULE_EXTRA = {
     "C06": "; block indices built by IndexBlock (0..5 or 255 rows, keyed or keyless): written, read, re-written, stored, fetched, compared with the Lean codec; table profiles of real ingests decoded and re-encoded (no Lean model of the profile: re-encoding clauses only); 1 in 32 a history of 2..8 Save*/Delete* calls on one store that writes keys again (same content; other content under the same table sum for table index / profile), read back after every step and dumped at the end, against the finite map of Model/ObjStore.lean; 1 in 64 a stored table whose index and profile keys hold another table's / an older profiler's / damaged / the same / no bytes, refreshed by IndexTable + ProfileTable and compared with the same refresh onto absent keys",
     "C07": "; 1 in 5 extra tables header-only",
     "C11": "; walks from 3..5 start points with a repeated one",
-    "C13": "; every write position also as a single injected write error (the operation continues): consistency, error reported or harmless, re-run",
+    "C13": "; every write position also as a single injected write error (the operation continues): consistency, error reported or harmless, re-run; every crash point also as a recovery history (crash, a complete prune of the reopened repository, the operation again: same refs, every commit they reach and its table present, consistent); 1 in 4 cases: the fetch command's Fetch (default refspec) against the reference server, remote 1..3 commits ahead on main, optional second branch, 0..2 tags outside the refspec, 1..n packfiles; 1 in 4: one of the four kinds in a repository that also holds an unreachable commit",
     "C14": "; 1 in 5 scenarios inject the fault into discard (crash or single error at each of its store operations) and discard again; commit faults as crash or single error",
     "C15": "; 1 in 8 logged sets run with a failing reflog insert (SQL trigger): must fail and change nothing",
     "C16": "; 1 in 4 cases: a merge of 2..3 branches (256..955 rows) with a deleted block / block index of base or branch or reads failing after k, under a 75 s watchdog, and without fault compared with the one-processor outcome; the table index is compared too; 1 in 4 of the rest: the commit command's ingest helper on a store that refuses the k-th write (must return the error, never hang); 1 in 5 of the rest: a progress bar created with total in {-1,0,1,5,10,1000}, moved by 0..4 Incr/SetTotal/SetCurrent calls, finished with Done() under a 20 s timer, compared with Model/PBar.lean",
